@@ -72,35 +72,14 @@ impl<D: Buf, E: FromBoxError> ExactLenStream<D, E> {
 
 pub open spec fn trailer_bytes() -> Seq<u8> { seq![0x0du8, 0x0au8, 0x2du8, 0x2du8, 0x42u8, 0x2du8, 0x2du8, 0x0du8, 0x0au8] } // "\r\n--B--\r\n" written from C06
 
-/// Bytes owed from the start of part `i`: headers and ranges of parts i.. plus the 9-byte trailer.
-pub open spec fn rest(ph: Seq<Vec<u8>>, rg: Seq<Range<u64>>, i: int) -> int
-    decreases rg.len() - i
-{
-    if i >= rg.len() || i < 0 { 9 } else { ph[i]@.len() + (rg[i].end - rg[i].start) + rest(ph, rg, i + 1) }
-}
-
-pub proof fn lemma_rest_nonneg(ph: Seq<Vec<u8>>, rg: Seq<Range<u64>>, i: int)
-    requires forall|j: int| 0 <= j < rg.len() ==> (#[trigger] rg[j]).start <= rg[j].end,
-    ensures rest(ph, rg, i) >= 9,
-    decreases rg.len() - i
-{
-    if i >= rg.len() || i < 0 {} else { lemma_rest_nonneg(ph, rg, i + 1); }
-}
-
-pub proof fn lemma_rest_frame(ph1: Seq<Vec<u8>>, ph2: Seq<Vec<u8>>, rg: Seq<Range<u64>>, i: int)
-    requires ph1.len() == ph2.len(), ph1.len() == rg.len(), forall|j: int| i <= j < ph1.len() ==> ph1[j] == ph2[j],
-    ensures rest(ph1, rg, i) == rest(ph2, rg, i),
-    decreases rg.len() - i
-{
-    if i >= rg.len() || i < 0 {} else { lemma_rest_frame(ph1, ph2, rg, i + 1); }
-}
+//@include specs/multipart_spec.rs
 
 pub proof fn lemma_bits(x: usize)
-    ensures x >> 1 == x / 2, (x & 1) == x % 2, x < 0x1000_0000 ==> (x << 1 | 1) == 2 * x + 1,
+    ensures x >> 1 == x / 2, (x & 1) == x % 2, x <= 0x07ff_ffff_ffff_ffff ==> (x << 1 | 1) == 2 * x + 1,
 {
     assert(x >> 1 == x / 2) by (bit_vector);
     assert((x & 1) == x % 2) by (bit_vector);
-    assert(x < 0x1000_0000 ==> (x << 1 | 1) == 2 * x + 1) by (bit_vector);
+    assert(x <= 0x07ff_ffff_ffff_ffff ==> (x << 1 | 1) == 2 * x + 1) by (bit_vector);
 }
 
 impl<D: DataT, E: FromBoxError> MultipartStream<D, E> {
@@ -108,7 +87,7 @@ impl<D: DataT, E: FromBoxError> MultipartStream<D, E> {
     spec fn wf(&self) -> bool {
         let n = self.ranges@.len();
         &&& self.part_headers@.len() == n
-        &&& n < 0x1000_0000
+        &&& n <= 0x07ff_ffff_ffff_ffff
         &&& forall|j: int| 0 <= j < n ==> (#[trigger] self.ranges@[j]).start <= self.ranges@[j].end
         &&& self.state <= 2 * n + 1
         &&& (self.cur matches Some(c) ==> self.state % 2 == 1 && self.state / 2 < n
@@ -132,7 +111,7 @@ impl<D: DataT, E: FromBoxError> MultipartStream<D, E> {
     //@fn src/serving.rs :: impl MultipartStream :: fn new props=C01,C06,C12 rules=T_stream
     fn new(entity: EntityBox<D, E>, part_headers: Vec<Vec<u8>>, ranges: Vec<std::ops::Range<u64>>, len: u64) -> (r: Self)
         requires
-            part_headers@.len() == ranges@.len(), ranges@.len() < 0x1000_0000,
+            part_headers@.len() == ranges@.len(), ranges@.len() <= 0x07ff_ffff_ffff_ffff,
             forall|j: int| 0 <= j < ranges@.len() ==> (#[trigger] ranges@[j]).start <= ranges@[j].end,
             len as int == rest(part_headers@, ranges@, 0),
         ensures
